@@ -151,7 +151,8 @@ def _doc_default(p, emit_default_doc):
     return doc
 
 
-def render_class(desc, name="Config", default_doc=False, indent=""):
+def render_class(desc, name="Config", default_doc=False, indent="", quote_code=False):
+    """quote_code: write code defaults the way doctrans itself does in classes: as a string of back-tick quoted source"""
     lines = ['class %s(object):' % name, '    """', "    " + desc["doc"], ""]
     for p in desc["params"]:
         lines.append("    :cvar %s: %s" % (p["name"], _doc_default(p, default_doc)))
@@ -168,7 +169,10 @@ def render_class(desc, name="Config", default_doc=False, indent=""):
             lines.append("    %s: %s = %s" % (p["name"], typ, lit(p["default"])))
     if r:
         if r.get("default") is not None:
-            lines.append("    return_type: %s = %s" % (r["typ"] or "object", lit(r["default"])))
+            rl = lit(r["default"])
+            if quote_code and "code" in r["default"]:
+                rl = '"```%s```"' % r["default"]["code"]
+            lines.append("    return_type: %s = %s" % (r["typ"] or "object", rl))
         else:
             lines.append("    return_type: %s" % (r["typ"] or "object"))
     if not desc["params"] and not r:
